@@ -197,8 +197,10 @@ def r_onevalue(ctx):
             t = [s for s in ifs[0].body if isinstance(s, ast.Assign) and dotted(s.targets[0]) == f]
             e = [s for s in ifs[0].orelse if isinstance(s, ast.Assign)]
             ok_t = len(t) == 1 and src(t[0].value).replace(" ", "") in ("%s[-1]" % name, "%s[1]" % name)
-            ok_e = len(e) == 1 and isinstance(e[0].value, ast.Call) and call_name(e[0].value) == "oracle" and isinstance(e[0].targets[0], ast.Tuple) \
-                and dotted(e[0].targets[0].elts[1]) == f
+            ok_e = len(e) == 1 and ((isinstance(e[0].value, ast.Call) and call_name(e[0].value) == "oracle" and isinstance(e[0].targets[0], ast.Tuple)
+                                      and dotted(e[0].targets[0].elts[1]) == f)
+                                     or (dotted(e[0].targets[0]) == f and isinstance(e[0].value, ast.Subscript) and isinstance(e[0].value.value, ast.Call)
+                                         and call_name(e[0].value.value) == "oracle" and src(e[0].value.slice) in ("-1", "1")))
             ok = ok_t and ok_e
             msg = "value() returns the stored value when there is one, the oracle's value otherwise" if ok else \
                 "value(): stored branch ok=%s, oracle branch ok=%s" % (ok_t, ok_e)
@@ -221,7 +223,31 @@ def r_lookup_and_separate(ctx):
     ok = len(loops) == 1 and isinstance(loops[0].target, ast.Name)
     msg = "lookup does not iterate the whole list of recorded samples"
     pruned_ok = False
-    if ok:
+    gens = [n for n in ast.walk(fn) if isinstance(n, ast.Call) and call_name(n) == "next" and len(n.args) == 2 and isinstance(n.args[0], ast.GeneratorExp)
+            and isinstance(n.args[1], ast.Constant) and n.args[1].value is None]
+    if not loops and len(gens) == 1 and any(isinstance(r, ast.Return) and r.value is gens[0] for r in ast.walk(fn)):
+        # return next((t[1:] for t in self.list_of_points if t[0].decomposition_dict == <pruned query>), None)
+        ge = gens[0].args[0]
+        g0 = ge.generators[0] if len(ge.generators) == 1 else None
+        ok = g0 is not None and dotted(g0.iter) == "self.list_of_points" and isinstance(g0.target, ast.Name) and len(g0.ifs) == 1 \
+            and src(ge.elt).replace(" ", "") == "%s[1:]" % g0.target.id and isinstance(g0.ifs[0], ast.Compare) and isinstance(g0.ifs[0].ops[0], ast.Eq)
+        msg = "returns (gradient, value) of the first recorded sample with the same decomposition" if ok else "lookup compares / returns something else"
+        if ok:
+            t = g0.target.id
+            sides = [g0.ifs[0].left, g0.ifs[0].comparators[0]]
+            stored = [x for x in sides if src(x).replace(" ", "") == "%s[0].decomposition_dict" % t]
+            query = [x for x in sides if x not in stored]
+            ok = len(stored) == 1 and len(query) == 1
+            if ok:
+                q = query[0]
+                if isinstance(q, ast.Call) and call_name(q) == "prune_dict" and src(q.args[0]) == "%s.decomposition_dict" % point:
+                    pruned_ok = True
+                elif isinstance(q, ast.Name):
+                    d = [s0 for s0 in flow.stmts_of(fn, ast.Assign) if dotted(s0.targets[0]) == q.id]
+                    pruned_ok = len(d) == 1 and isinstance(d[0].value, ast.Call) and call_name(d[0].value) == "prune_dict" \
+                        and src(d[0].value.args[0]) == "%s.decomposition_dict" % point
+        loops = None
+    if ok and loops:
         t = loops[0].target.id
         ifs = [s for s in loops[0].body if isinstance(s, ast.If)]
         ok = len(ifs) == 1 and isinstance(ifs[0].test, ast.Compare) and isinstance(ifs[0].test.ops[0], ast.Eq)
@@ -255,41 +281,38 @@ def r_lookup_and_separate(ctx):
     ok = len(rets) == 1 and isinstance(rets[0].value, ast.Tuple) and len(rets[0].value.elts) == 3 and len(loops) == 1 and isinstance(loops[0].target, ast.Tuple)
     msg = "need classification not recognised"
     if ok:
+        from ..absint import PathEval, bool_decider
         l0, l1, l2 = [e.id for e in rets[0].value.elts]
         f, w = [e.id for e in loops[0].target.elts]
         table = {}
-
-        def walk(stmts, facts):
-            for s in stmts:
-                if isinstance(s, ast.If):
-                    t = s.test
-                    pos, neg = s.body, s.orelse
-                    while isinstance(t, ast.UnaryOp) and isinstance(t.op, ast.Not):
-                        t = t.operand
-                        pos, neg = neg, pos
-                    if isinstance(t, ast.Compare) and len(t.ops) == 1 and isinstance(t.comparators[0], ast.Constant) and t.comparators[0].value is None \
-                            and isinstance(t.ops[0], (ast.Is, ast.IsNot)):
-                        if isinstance(t.ops[0], ast.Is):
-                            pos, neg = neg, pos
-                        t = t.left
-                    if isinstance(t, ast.Call) and call_name(t) == LOOKUP and dotted(t.func.value) == f:
-                        walk(pos, dict(facts, ev=True))
-                        walk(neg, dict(facts, ev=False))
-                    elif dotted(t) == "%s.reuse_gradient" % f:
-                        walk(pos, dict(facts, re=True))
-                        walk(neg, dict(facts, re=False))
-                    else:
-                        table[("?", src(t))] = "unrecognised test"
-                elif isinstance(s, ast.Expr) and isinstance(s.value, ast.Call) and call_name(s.value) == "append":
-                    a = s.value.args[0]
-                    good = isinstance(a, ast.Tuple) and [dotted(e) for e in a.elts] == [f, w]
-                    table[(facts.get("ev"), facts.get("re"))] = dotted(s.value.func.value) if good else "appends " + src(a)
-
-        walk(loops[0].body, {})
-        want = {(True, True): l0, (True, False): l1, (False, None): l2}
+        for evd in (True, False):
+            for red in (True, False):
+                def atom(t, evd=evd, red=red):
+                    x = t
+                    if isinstance(x, ast.Compare) and len(x.ops) == 1 and isinstance(x.comparators[0], ast.Constant) and x.comparators[0].value is None:
+                        inner = x.left
+                        if isinstance(inner, ast.Call) and call_name(inner) == LOOKUP and isinstance(inner.func, ast.Attribute) and dotted(inner.func.value) == f:
+                            return (not evd) if isinstance(x.ops[0], (ast.Is, ast.Eq)) else evd
+                    if isinstance(x, ast.Call) and call_name(x) == LOOKUP and isinstance(x.func, ast.Attribute):
+                        return evd if dotted(x.func.value) == f else None
+                    if isinstance(x, ast.Attribute) and x.attr == "reuse_gradient":
+                        return red if dotted(x.value) == f else None
+                    return None
+                fb = ast.FunctionDef(name="_term", args=ast.arguments(posonlyargs=[], args=[], kwonlyargs=[], kw_defaults=[], defaults=[]), body=loops[0].body, decorator_list=[])
+                dests = set()
+                def alias_ok(e):
+                    from ..absint import _pure
+                    return _pure(e) or (isinstance(e, ast.Call) and call_name(e) == LOOKUP)
+                for pth in PathEval(fb, bool_decider(atom), alias_ok=alias_ok, loop_mode="once").run():
+                    apps = [ev.value for ev in pth.trace if isinstance(ev, ast.Expr) and isinstance(ev.value, ast.Call) and call_name(ev.value) == "append"]
+                    good = [a for a in apps if isinstance(a.args[0], ast.Tuple) and [dotted(e) for e in a.args[0].elts] == [f, w]]
+                    dests.add(tuple(sorted(dotted(a.func.value) for a in good)) if len(good) == len(apps) else ("appends something else",))
+                table[(evd, red)] = dests
+        want = {(True, True): {(l0,)}, (True, False): {(l1,)}, (False, True): {(l2,)}, (False, False): {(l2,)}}
         ok = table == want
         msg = "terms are sorted by (already evaluated, the TERM's own differentiability) into need-nothing / need-gradient / need-both" if ok else \
-            "classification table %s, expected %s (tests must be on the term `%s`, not on the sum)" % (table, want, f)
+            "classification %s, expected %s (the tests must be on the term `%s`, not on the sum)" % (
+                {k: sorted(v) for k, v in table.items()}, {k: sorted(v) for k, v in want.items()}, f)
     ctx.ob("R-SEPARATE", "Function.%s" % SEPARATE, ok, msg, loc(fn, fn))
 
 
